@@ -628,6 +628,84 @@ def write_rerun_failures(prog, steps):
     return fails
 
 
+def static_owners(prog):
+    """name -> set of the names of the scopes / computations that lexically enclose its declaration (they own it, directly or not)"""
+    own = {}
+
+    def walk(ss, chain):
+        for s in ss:
+            k = s[0]
+            if k in ("signal", "memo", "effect", "selector", "scope", "providein"):
+                own.setdefault(s[1], set()).update(chain)
+            if k in ("memo", "effect"):
+                walk(s[2][2], chain + [s[1]])
+            elif k == "selector":
+                walk(s[3][2], chain + [s[1]])
+            elif k == "scope":
+                walk(s[2], chain + [s[1]])
+            elif k == "providein":
+                walk(s[4], chain + [s[1]])
+            elif k in ("batch", "untrack", "component"):
+                walk(s[1], chain)
+            elif k == "if":
+                walk(s[2], chain)
+                walk(s[3], chain)
+    walk(prog, [0])
+    return own
+
+
+def destroyed_runs_again(prog, steps):
+    """C04: no destroyed memo or effect ever runs again -- also not in the statement in which it is destroyed: once a disposal of the
+    computation itself or of a scope that lexically owns it has COMPLETED (the driver logs where every disposal starts and ends), no
+    re-run of it may start. Only for names that denote one node at a time; a run nested in another run is a creation, not a re-run."""
+    comps = computations(prog)
+    single = single_instance_names(prog)
+    own = static_owners(prog)
+    # curscope aliases: (curscope a) inside the block of x binds a to x
+    alias = {}
+
+    def walk(ss, cur):
+        for s in ss:
+            k = s[0]
+            if k == "curscope":
+                alias[s[1]] = cur
+            elif k in ("memo", "effect"):
+                walk(s[2][2], s[1])
+            elif k == "selector":
+                walk(s[3][2], s[1])
+            elif k == "scope":
+                walk(s[2], s[1])
+            elif k == "providein":
+                walk(s[4], s[1])
+            elif k in ("batch", "untrack", "component", "oncleanup"):
+                walk(s[1] if k != "oncleanup" else s[2], cur)
+            elif k == "if":
+                walk(s[2], cur)
+                walk(s[3], cur)
+    walk(prog, 0)
+    fails = []
+    for k, st in enumerate(steps):
+        ev = st["events"]
+        # (the END of a disposal: while it is in progress, descendants that have not been reached yet are still alive and may run)
+        disps = [(i, alias.get(int(l.split(" ")[1]), int(l.split(" ")[1]))) for i, l in enumerate(ev) if l.startswith("dispend ")]
+        if not disps:
+            continue
+        spans = run_spans(ev)
+        depths = span_depths(spans)
+        prev = prev_nodes_of(steps, k)
+        for r, d in zip(spans, depths):
+            n = r["name"]
+            # a RE-run: the computation existed before this statement (a first run is not nested either when it is declared in a scope)
+            if d != 0 or n not in comps or n not in single or not prev.get(n, {}).get("alive"):
+                continue
+            for (i, y) in disps:
+                recreated = any(q["name"] == n and dq > 0 and i < q["start"] < r["start"] for q, dq in zip(spans, depths))
+                if i < r["start"] and not recreated and (y == n or y in own.get(n, ())) and y in single | {0}:
+                    fails.append({"oracle": "destroyed-computation-runs-again", "step": k, "node": n, "disposed": y, "disposal_at_event": i, "run_at_event": r["start"], "known": None})
+                    break
+    return fails
+
+
 def steps_of(lines_all):
     """steps of a scenario, plus a final pseudo-step for what happened while the root was disposed through its RootHandle"""
     lines, root_events, root_status = reactive.split_root(lines_all)
